@@ -11,7 +11,12 @@ Inductive bst := StIdle | StConnect | StActive | StOpenSent | StOpenConfirm | St
 Definition bst_num (s : bst) : N :=
   match s with StIdle => 1 | StConnect => 2 | StActive => 3 | StOpenSent => 4
              | StOpenConfirm => 5 | StEstablished => 6 end.
-Definition bst_eqb (a b : bst) : bool := bst_num a =? bst_num b.
+Definition bst_eqb (a b : bst) : bool :=
+  match a, b with
+  | StIdle, StIdle | StConnect, StConnect | StActive, StActive | StOpenSent, StOpenSent
+  | StOpenConfirm, StOpenConfirm | StEstablished, StEstablished => true
+  | _, _ => false
+  end.
 
 Inductive tid := TConnectRetry | THold | TKeepAlive | TDelayOpen | TIdleHold.
 
